@@ -252,6 +252,84 @@ def c08_typedef_outside(kind: int, nsdepth: int, p: int, extra: int) -> bool:
     return ok
 
 
+# ---------------------------------------------------------------- two templates with the SAME name in different namespaces
+SAME_LAYOUTS = [(("ns1",), ("ns2",)), (("gtsam",), ()), (("a", "b"), ("b",)), (("lib", "a"), ("lib", "b", "c")), ((), ("inner",))]
+
+
+def build_same_name(layout, order, with_first=True, with_second=True):
+    """typedefs of both templates written in ONE block ahead of the namespaces that define them"""
+    n1, n2 = SAME_LAYOUTS[layout]
+    q1, q2 = "".join(x + "::" for x in n1), "".join(x + "::" for x in n2)
+    tds = []
+    if with_first:
+        tds.append("typedef %sBox<double> BoxA;" % q1)
+    if with_second:
+        tds.append("typedef %sBox<int> BoxB;" % q2)
+    if order:
+        tds.reverse()
+
+    def block(path, body):
+        return "".join("namespace %s { " % x for x in path) + body + " }" * len(path)
+    t1 = "template<T> class Box { Box(T a); T first() const; };"
+    t2 = "template<T> class Box { Box(); void second(T b) const; static int Count(); };"
+    parts = tds[:]
+    if with_first:
+        parts.append(block(n1, t1) if n1 else t1)
+    if with_second:
+        parts.append(block(n2, t2) if n2 else t2)
+    want = {}
+    if with_first:
+        want["BoxA"] = ("%sBox<double>" % q1, ["first"], [""] + list(n1))
+    if with_second:
+        want["BoxB"] = ("%sBox<int>" % q2, ["second"], [""] + list(n2))
+    return "\n".join(parts), want
+
+
+def find_all(ns, name, out):
+    for e in ns.content:
+        if isinstance(e, parser.Namespace):
+            find_all(e, name, out)
+        elif getattr(e, "name", None) == name and isinstance(e, ti.InstantiatedClass):
+            out.append(e)
+    return out
+
+
+def check_same_name(layout, order):
+    text, want = build_same_name(layout, order)
+    problems = []
+    try:
+        mod = ti.instantiate_namespace(parser.Module.parseString(text))
+    except Exception as ex:
+        return _fail(text=text, problems=["raised %r" % ex])
+    for alias, (cpp, meths, nss) in want.items():
+        found = find_all(mod, alias, [])
+        if len(found) != 1:
+            problems.append("%d instantiations named %s" % (len(found), alias))
+            continue
+        c = found[0]
+        if c.to_cpp() != cpp or [m.name for m in c.methods] != meths or c.namespaces() != nss:
+            problems.append("%s is %s with methods %r in %r; its typedef names %s (methods %r, namespace %r)" % (
+                alias, c.to_cpp(), [m.name for m in c.methods], c.namespaces(), cpp, meths, nss))
+    if problems:
+        return _fail(text=text, problems=problems)
+    return True
+
+
+def c08_same_name_templates(layout: int, order: int) -> bool:
+    """
+    Two class templates with the same name in different namespaces (siblings; namespaced and global; one path a suffix of
+    the other; nested), each instantiated by a typedef, both typedefs in one block, in either order: each alias is the
+    instantiation of the template its typedef names.
+    pre: 0 <= layout < len(SAME_LAYOUTS) and 0 <= order <= 1
+    post: _
+    """
+    layout, order = pick(layout, 0, len(SAME_LAYOUTS)), pick(order, 0, 2)
+    with concrete():
+        ok = check_same_name(layout, order)
+    reached({"layout": layout, "order": order})
+    return ok
+
+
 def conds(tier):
     q = tier == "quick"
     t = (lambda x, y: x) if q else (lambda x, y: y)
@@ -261,6 +339,8 @@ def conds(tier):
                 bounds="1-3 class parameters x 0-%s instantiations each (third list %s) x 0-2 member-template parameters x 0-2 function-template parameters" % ("3" if not q else "2", "free, function-template list derived" if not q else "derived")),
         xh.Cond(M, "c08_typedefs", t(300, 1200), kind="shape-bounded", path_timeout=60, examples=["td_kind=1, td_place=2, p=2, nsdepth=1, l0=1", "td_kind=3, td_place=3, p=1, nsdepth=2, l0=0", "td_kind=2, td_place=0, p=1, nsdepth=0, l0=2"],
                 bounds="3 typedef targets x 4 placements x 1-2 parameters x namespace depth 0-2 x 0-2 enumerated instantiations"),
+        xh.Cond(M, "c08_same_name_templates", t(120, 600), kind="shape-bounded", examples=["layout=0, order=0", "layout=1, order=0", "layout=2, order=1", "layout=4, order=1"],
+                bounds="%d namespace layouts x 2 typedef orders" % len(SAME_LAYOUTS)),
         xh.Cond(M, "c08_typedef_outside", t(120, 600), kind="shape-bounded", examples=["kind=0, nsdepth=2, p=1, extra=0", "kind=1, nsdepth=1, p=1, extra=0", "kind=0, nsdepth=3, p=2, extra=3"],
                 bounds="class template / foreign template x namespace depth 1-3 x 1-2 parameters x 4 contents of the template's namespace"),
     ]
